@@ -182,7 +182,7 @@ fn check(text: &str, case: &str, before: usize, rep: &mut Report) {
 pub fn run(ctx: &Ctx, rep: &mut Report) {
     let kws: Vec<&spec::Kw> = VOCAB.iter().filter(|k| arity(k.lang) > 0).collect();
     let nk = kws.len() as u64;
-    let per = ctx.pick(12 * 12, 12 * 4000);
+    let per = ctx.pick(12 * 12, 12 * 20_000);
     par_cases(ctx, "args", nk * per, rep, |i, rep| {
         let kw = kws[(i % nk) as usize];
         let mut r = Rng::for_case(ctx.seed, "args", i);
@@ -241,7 +241,7 @@ pub fn run(ctx: &Ctx, rep: &mut Report) {
         let text = parts.join(" ");
         check(&text, &format!("args:{}", i), before, rep);
     });
-    let n_unknown = ctx.pick(3000, 3_000_000);
+    let n_unknown = ctx.pick(3000, 10_000_000);
     par_cases(ctx, "unknown", n_unknown, rep, |i, rep| {
         let mut r = Rng::for_case(ctx.seed, "unknown", i);
         let w = match r.below(6) {
